@@ -172,6 +172,39 @@ func c13StubOps() []c13Op {
 			}
 		}
 	}
+	// Sign with certificate keys (the key blob is the whole certificate: > 1 KiB for RSA; large critical options make it
+	// several KiB) at the ends of the data range - key size and data size vary jointly
+	for _, kk := range keys {
+		for ci, crt := range []*ssh.Certificate{
+			fix.SSHCert(fix.Pub(kk.priv), "id", 0, 1<<40, nil, "alice"),
+			fix.SSHCert(fix.Pub(kk.priv), strings.Repeat("k", 3000), 0, 1<<40, map[string]string{"force-command": strings.Repeat("x", 4000)}, "alice", "bob"),
+		} {
+			for _, dl := range []int{0, 65535, 65536} {
+				kk, crt, dl, ci := kk, crt, dl, ci
+				add(fmt.Sprintf("sign-%s-cert%d-data%d", kk.n, ci, dl), func(cl yubiagent.YubiAgent, st *stubAgent) string {
+					data := bytes.Repeat([]byte{0x3c}, dl)
+					st.Err = nil
+					st.Sig, _ = fix.Signer(kk.priv).Sign(rand.Reader, []byte("anything"))
+					before := len(st.Calls)
+					sig, err := cl.SignWithFlags(crt, data, 0)
+					if len(st.Calls) != before+1 {
+						return fmt.Sprintf("Sign(%s certificate of %d bytes, %d data bytes): the served agent received %d calls, err=%v", kk.n, len(crt.Marshal()), dl, len(st.Calls)-before, err)
+					}
+					c, m := last(st, "Sign")
+					if m != "" {
+						return m
+					}
+					if !bytes.Equal(c.KeyBlob, crt.Marshal()) || !bytes.Equal(c.Data, data) {
+						return fmt.Sprintf("served agent received a different key/data (%d/%d bytes), sent (%d/%d bytes)", len(c.KeyBlob), len(c.Data), len(crt.Marshal()), len(data))
+					}
+					if err != nil || sig == nil || !bytes.Equal(sig.Blob, st.Sig.Blob) {
+						return fmt.Sprintf("signature returned to the caller differs from the served agent's (err=%v)", err)
+					}
+					return ""
+				})
+			}
+		}
+	}
 	add("sign-error", func(cl yubiagent.YubiAgent, st *stubAgent) string {
 		st.Err, st.Sig = errors.New("scripted"), nil
 		defer func() { st.Err = nil }()
@@ -831,7 +864,7 @@ func errClassY(err error) string {
 }
 
 func checkC13(c *ev.Ctx) {
-	c.Rule("yubiagent.NewClient through the dial seam; the peer runs the real ServeAgent synchronously per request over (i) a recording YubiAgent with scripted results and (ii) the real server with a fake yubico-piv-tool. Every operation alone: List (0..3 keys, comments '', ascii, UTF-8, 300 bytes), SignWithFlags (3 key types x data {0,1,64,65536} x flags {0,2,4,6}), Add (3 key types x cert x lifetime {0,1,2^32-1} x confirm), Remove, RemoveAll, Lock/Unlock (5 passphrases), Signers, AddHardCert (client and legacy encoding, 4 comments, certificates and plain keys of 3 key types), Wait (6 codes), slot operations (slot names, 2 certificate sizes), raw Forward (3 bodies x 4 replies up to 70 KB), Extension, smart-card requests, scripted failures with 5 error texts; transport failures: the response of each of 16 operations cut after {0, 2, 4 bytes, half the body, all but the last byte} and the stream ended (the call must return an error); held results (6 value-returning operations x 16 following operations: the kept bytes must not change); every ordered pair over a 30-operation generating set; PIV tool outputs (well-formed status, 'Slot' alone, 'Slot 9' (6 chars), 'Slot 9a' (7), 'Slot9a:', CRLF, empty, 1 MiB, exit status 1, PEM/garbage for read/attest) in local and remote mode. non-trivial = operation sequence whose arguments and results were compared; distinct by sequence")
+	c.Rule("yubiagent.NewClient through the dial seam; the peer runs the real ServeAgent synchronously per request over (i) a recording YubiAgent with scripted results and (ii) the real server with a fake yubico-piv-tool. Every operation alone: List (0..3 keys, comments '', ascii, UTF-8, 300 bytes), SignWithFlags (3 key types x data {0,1,64,65536} x flags {0,2,4,6}; certificate keys of 3 types x {ordinary, 7 KiB} certificate x data {0,65535,65536}), Add (3 key types x cert x lifetime {0,1,2^32-1} x confirm), Remove, RemoveAll, Lock/Unlock (5 passphrases), Signers, AddHardCert (client and legacy encoding, 4 comments, certificates and plain keys of 3 key types), Wait (6 codes), slot operations (slot names, 2 certificate sizes), raw Forward (3 bodies x 4 replies up to 70 KB), Extension, smart-card requests, scripted failures with 5 error texts; transport failures: the response of each of 16 operations cut after {0, 2, 4 bytes, half the body, all but the last byte} and the stream ended (the call must return an error); held results (6 value-returning operations x 16 following operations: the kept bytes must not change); every ordered pair over a 30-operation generating set; PIV tool outputs (well-formed status, 'Slot' alone, 'Slot 9' (6 chars), 'Slot 9a' (7), 'Slot9a:', CRLF, empty, 1 MiB, exit status 1, PEM/garbage for read/attest) in local and remote mode. non-trivial = operation sequence whose arguments and results were compared; distinct by sequence")
 	c.Assume("error texts exactly 'SUCCESS' / '' and extension payloads that are empty or start with byte 5/28 are in-band protocol artefacts, excluded from the alphabet", "private keys are compared through their public keys")
 	ops := map[string]c13Op{}
 	list := c13StubOps()
